@@ -185,6 +185,12 @@ int sbdf_va_create_rle(sbdf_object const* array, sbdf_valuearray** handle)
 					run_out = run_out_base + out_size;
 				}
 
+				if (run == 0)
+				{
+					/* empty input: there is no run to flush */
+					break;
+				}
+
 				*run_out++ = run - 1;
 				if (is_array)
 				{
